@@ -213,6 +213,13 @@ func runC16(r *fw.Run) {
 			tuples = append(tuples, []string{c16Ops[i], c16Ops[j]})
 		}
 	}
+	if !r.Thorough {
+		// the triples that put a registration attempt next to a Shutdown and live handlers
+		for rep := 0; rep < 4; rep++ {
+			tuples = append(tuples, []string{"shutdown", "register-new", "client-call"}, []string{"shutdown", "register-new", "register-new"},
+				[]string{"shutdown", "register-new", "client-more"}, []string{"shutdown", "register-dup", "client-call"})
+		}
+	}
 	if r.Thorough {
 		for i := 0; i < len(c16Ops); i++ {
 			for j := i; j < len(c16Ops); j++ {
